@@ -28,6 +28,20 @@ class Interactor:
         self.fn = fn
         self.accumulators = accumulators or defaultdict(list)
         self.to_close = []
+        # Set by ptera.overlay.proceed: the object that installs the handler
+        # collection for this call, and removes it while a generator is
+        # suspended at a yield
+        self.context = None
+
+    def suspend(self):
+        """Called just before a generator yields."""
+        if self.context is not None:
+            self.context.suspend()
+
+    def resume(self):
+        """Called when a generator is resumed after a yield."""
+        if self.context is not None:
+            self.context.resume()
 
     def register(self, acc, captures, close_at_exit):
         """Register an accumulator for a certain set of captures.
@@ -70,6 +84,10 @@ class Interactor:
         Returns:
             The value to actually set the variable to.
         """
+        if self.context is not None and self.context.suspended:
+            # Thrown into or closed at a yield: we are running again
+            self.context.resume()
+
         if key is not None:
             varname = key.affix_to(varname)
 
